@@ -360,5 +360,12 @@ Definition denoted_time (y m d hh mm ss : Z) : option Z :=
   then Some (days_from_civil y m d * 86400 + hh * 3600 + mm * 60 + ss)
   else None.
 
+(* what the parser answers on a string of one of the three forms (theorems C35_*_answer):
+   it accepts iff day is 1..31 and the time of day is in range -- the day is NOT compared with
+   the length of the month -- and the accepted value is linear in the day *)
+Definition form_answer (y m d hh mm ss : Z) : Z :=
+  if in_range 1 31 d && in_range 0 23 hh && in_range 0 59 mm && in_range 0 59 ss
+  then days_from_civil y m d * 86400 + hh * 3600 + mm * 60 + ss else -1.
+
 (* the century window the code applies to a two-digit year *)
 Definition yy_year (yy : Z) : Z := if yy <? 70 then 2000 + yy else 1900 + yy.
